@@ -10,6 +10,7 @@ import (
 )
 
 type c06Combo struct {
+	where   string // for reduce combiners: the call site the function must be invoked from
 	tmpl    int
 	node    int
 	mode    string // error | temp | panic | badpart
@@ -78,7 +79,17 @@ func init() {
 					}
 					for pos := 0; pos < npos; pos++ {
 						for cfg := 0; cfg < 4; cfg++ {
-							c06Combos = append(c06Combos, c06Combo{t, ni, mode, one, pos, cfg})
+							c06Combos = append(c06Combos, c06Combo{"", t, ni, mode, one, pos, cfg})
+						}
+					}
+					if n.Op == "reduce" {
+						// The three places a reduce combiner is called from: the task-local
+						// table, the shared (per-partition / machine) combine buffer, and the
+						// merge on the consumer side.
+						for _, where := range []string{"combiningFrame).Combine", "exec.(*combiner).Combine", "sortio.(*reader).Read"} {
+							for cfg := 0; cfg < 4; cfg++ {
+								c06Combos = append(c06Combos, c06Combo{where, t, ni, mode, one, 0, cfg})
+							}
 						}
 					}
 				}
@@ -144,6 +155,7 @@ func GenC06(seed uint64, i int) *world.Case {
 	case "reduce":
 		uf.Key = ""
 		uf.Skip = []int{0, 3, 40}[cb.pos]
+		uf.Where = cb.where
 	default:
 		in := ref.Vals[n.In[0]]
 		rows := in.Rows
@@ -198,21 +210,6 @@ func C06(tier string, seed uint64) int {
 		Rule: fmt.Sprintf("enumeration of %d combinations (user-function site in 3 template programs x failure mode {error,temporary,panic,out-of-range partition} x {persistent, one-shot} x position {first row/call, around the vector boundary, last, at end-of-stream} x executor configuration {local p=1, local p=4, cluster, cluster+machine combiners}), each as its own child process (a crash of the process is observed as such), then re-sampled under other seeds and chunk sizes; oracle: Run returns an error (with the injected marker for errors and panics) unless the failure is temporary and one-shot, in which case it succeeds with reference rows; a following fault-free Run in the same session succeeds with reference rows; no hang", len(c06Combos)),
 		Gen: func(i int) *world.Case { return GenC06(seed, i) },
 		N:   len(c06Combos),
-		Judge: func(c *world.Case, o *world.Outcome) string {
-			cl := violationClass(o)
-			if cl == "" && o.Verdict == "ok" && len(c.UFaults) > 0 {
-				fired := 0
-				for k, v := range o.Fired {
-					if len(k) > 5 && k[:5] == "user-" {
-						fired += v
-					}
-				}
-				if fired == 0 && c.Script[0].MustFail {
-					// cannot happen: MustFail would have been violated
-				}
-			}
-			return cl
-		},
 	}
 	if tier != "quick" {
 		b.N = 3 * len(c06Combos)
